@@ -28,6 +28,16 @@ def step (st : St) (toks : List String) : St × Option String :=
       let r := burstyAcquire c s st.now (toInt! k) (toInt! mw)
       ({ st with kind := .bursty c r.2, nontrivial := st.nontrivial + (if r.1 != 0 then 1 else 0) }, some (toString r.1))
     | .none => (st, some "bad-op")
+  | ["bacq", k] =>
+    -- blocking acquire cancelled 5 ms into its wait: it reserved (the reservation stays) and reports whether it had to wait
+    match st.kind with
+    | .smooth c s =>
+      let r := smoothAcquire c s st.now (toInt! k) (-1)
+      ({ st with kind := .smooth c r.2, nontrivial := st.nontrivial + 1 }, some (if r.1 == 0 then "ok" else "canceled"))
+    | .bursty c s =>
+      let r := burstyAcquire c s st.now (toInt! k) (-1)
+      ({ st with kind := .bursty c r.2, nontrivial := st.nontrivial + 1 }, some (if r.1 == 0 then "ok" else "canceled"))
+    | .none => (st, some "bad-op")
   | ["try", k] =>
     match st.kind with
     | .smooth c s =>
